@@ -288,8 +288,44 @@ def a_operations():
         'metaclass hook at is_structseq_class': ({}, lambda: optree.is_structseq_class(fresh_nt(tick)), False),
         'metaclass hook at registration': ({}, lambda: _register_once(fresh_nt(tick)), True),
         'warning hook at registration of a namedtuple': ({}, lambda: _register_with_warning_hook(), True),
+        # the error paths of the registry: their messages print the class, i.e. run a metaclass __repr__
+        'metaclass __repr__ at a duplicate registration': ({}, lambda: _register_twice(fresh_repr_class(tick)), True),
+        'metaclass __repr__ at unregistering an unregistered class': ({}, lambda: _unregister_absent(fresh_repr_class(tick)), True),
     }
     return A
+
+
+def fresh_repr_class(hook):
+    """a class whose metaclass has a Python-level __repr__ (like enum.EnumType): printing the class runs user code"""
+    class ReprMeta(type):
+        def __repr__(cls):
+            hook()
+            return '<class with a Python repr>'
+
+    class C(metaclass=ReprMeta):
+        def __init__(self, *ch):
+            self.ch = ch
+    return C
+
+
+def _register_twice(cls):
+    optree.register_pytree_node(cls, lambda x: (x.ch, None), lambda m, c: cls(*c), namespace='c17-a')
+    try:
+        try:
+            optree.register_pytree_node(cls, lambda x: (x.ch, None), lambda m, c: cls(*c), namespace='c17-a')
+        except ValueError as e:
+            return ('ValueError', 'already registered' in str(e))
+        return ('no error',)
+    finally:
+        optree.unregister_pytree_node(cls, namespace='c17-a')
+
+
+def _unregister_absent(cls):
+    try:
+        optree.unregister_pytree_node(cls, namespace='c17-a')
+    except ValueError as e:
+        return ('ValueError', 'not registered' in str(e) or 'is not' in str(e))
+    return ('no error',)
 
 
 def _register_once(cls):
